@@ -25,6 +25,7 @@ type Episode struct {
 	Finger uint64
 	Switches, LibSwitches, Ticks, PoolDrops uint64
 	Diverged bool
+	Seed     uint64
 	RaceTexts    []string
 	HarnessRaces int
 }
@@ -164,7 +165,7 @@ func simOptions(cfg Cfg, seed uint64, nsites int, replay []uint32, strict bool) 
 
 // runEpisode executes one episode and judges it.
 func runEpisode(prop *Property, cfg Cfg, prog *Program, seed uint64, replay []uint32, strict bool) *Episode {
-	ep := &Episode{Cfg: cfg, Prog: prog}
+	ep := &Episode{Cfg: cfg, Prog: prog, Seed: seed}
 	wd := newWorld(cfg, prog)
 	ep.W = wd
 	opts := simOptions(cfg, seed, numSites, replay, strict)
